@@ -31,6 +31,16 @@ func genOrder(t *rapid.T) OrderCase {
 		n = rapid.IntRange(13, 24).Draw(t, "n13")
 	}
 	orders := rapid.SliceOfNDistinct(rapid.IntRange(-5, 50), 1, 3, func(i int) int { return i }).Draw(t, "orders")
+	if rapid.IntRange(0, 3).Draw(t, "zeroOrder") == 0 {
+		// 0 is an order like any other
+		has := false
+		for _, o := range orders {
+			has = has || o == 0
+		}
+		if !has {
+			orders[0] = 0
+		}
+	}
 	seen := map[string]bool{}
 	dirs := []string{"", "", "a", "b", "a/x", "zz"}
 	for i := 0; i < n; i++ {
